@@ -98,6 +98,15 @@ NameLess(a, b) ==
 IsSubstr(part, s) ==
   \E j \in 0..(Len(s) - Len(part)) : SubSeq(s, j + 1, j + Len(part)) = part
 
+(* does a value contain a function or module anywhere?  (their comparison is a *)
+(* don't-care: the generators never rely on it)                                *)
+RECURSIVE HasFn(_)
+HasFn(v) ==
+  CASE v.t \in {"func", "module"} -> TRUE
+    [] v.t = "list"  -> \E j \in 1..Len(v.es) : HasFn(v.es[j])
+    [] v.t = "tuple" -> \E j \in 1..Len(v.fs) : HasFn(v.fs[j].val)
+    [] OTHER -> FALSE
+
 (* ---- structural equality, tag-guarded ------------------------------------- *)
 (* Positional on lists; on tuples the REFERENCE demands same fields in the    *)
 (* same order (expressions.md: "both tuples in a comparison must have their   *)
